@@ -16,7 +16,7 @@ use dst_common::{Tier, seed_from_env};
 use runner::Check;
 
 fn checks() -> Vec<Check> {
-    vec![c10::check(), c21::check(), sqlchecks::c02(), sqlchecks::c05(), sqlchecks::c06(), sqlchecks::c08(), sqlchecks::c18(), sqlchecks::c19(), sqlchecks::c20()]
+    vec![c10::check(), c21::check(), sqlchecks::c02(), sqlchecks::c05(), sqlchecks::c06(), sqlchecks::c08(), sqlchecks::c18(), sqlchecks::c19(), sqlchecks::c20(), sqlchecks::c31()]
 }
 
 fn usage() -> ! {
